@@ -497,6 +497,12 @@ fn gen_bridge(mut input: ItemMod) -> ItemMod {
         }
 
         Item::Impl(i) => {
+            // Attributes on an impl block are inherited by its methods (diplomat-tool reads them),
+            // they must be cleaned out like everywhere else
+            let info = AttributeInfo::extract(&mut i.attrs);
+            if info.opaque {
+                panic!("#[diplomat::opaque] not allowed on impl blocks")
+            }
             for item in &mut i.items {
                 if let syn::ImplItem::Fn(ref mut m) = *item {
                     let info = AttributeInfo::extract(&mut m.attrs);
